@@ -137,8 +137,12 @@ func c12Group(name string, units []c12Unit) *dtypes.GroupSpec {
 	return g
 }
 
+// consecutive orders come in pairs that differ in the order sequence only (an order re-issued
+// for the same deployment group after the previous lease ended)
+func c12O(o mtypes.OrderID) string { return fmt.Sprintf("%d.%d", o.DSeq, o.OSeq) }
+
 func c12Order(i int) mtypes.OrderID {
-	return mtypes.OrderID{Owner: "owner", DSeq: uint64(i + 1), GSeq: 1, OSeq: 1}
+	return mtypes.OrderID{Owner: "owner", DSeq: uint64(i/2 + 1), GSeq: 1, OSeq: uint32(i%2 + 1)}
 }
 
 // lenient scaling: floor(v / factor) (>= 0), so that only over-commitment is flagged
@@ -416,13 +420,13 @@ func TestVerif_C12(t *testing.T) {
 			}
 			_, errA := A.is.reserve(order, gA)
 			_, errB := B.is.reserve(order, gB)
-			logop("%s(order%d,%v)->%v", tag, order.DSeq, units, errA == nil)
+			logop("%s(order%s,%v)->%v", tag, c12O(order), units, errA == nil)
 			if (errA == nil) != (errB == nil) {
-				fail("c12-status-affects-decisions", "reserve(order%d) was %v on the service whose status had been queried and %v on an identical service that was never queried", order.DSeq, errA, errB)
+				fail("c12-status-affects-decisions", "reserve(order%s) was %v on the service whose status had been queried and %v on an identical service that was never queried", c12O(order), errA, errB)
 			}
 			if errA == nil {
 				if ok, why := grantOK(units); !ok {
-					fail("c12-overcommit", "reservation for order%d %v was GRANTED although %s", order.DSeq, units, why)
+					fail("c12-overcommit", "reservation for order%s %v was GRANTED although %s", c12O(order), units, why)
 				}
 				model = append(model, &c12Res{order: order, group: name, units: units})
 			}
@@ -463,9 +467,9 @@ func TestVerif_C12(t *testing.T) {
 				}
 				errA := A.is.unreserve(order)
 				errB := B.is.unreserve(order)
-				logop("unreserve(order%d)->%v", order.DSeq, errA == nil)
+				logop("unreserve(order%s)->%v", c12O(order), errA == nil)
 				if (errA == nil) != known || (errB == nil) != known {
-					fail("c12-unreserve", "unreserve(order%d): err=%v (twin %v), reservation outstanding=%v", order.DSeq, errA, errB, known)
+					fail("c12-unreserve", "unreserve(order%s): err=%v (twin %v), reservation outstanding=%v", c12O(order), errA, errB, known)
 				}
 				if known {
 					model = append(model[:idx], model[idx+1:]...)
@@ -517,10 +521,20 @@ func TestVerif_C12(t *testing.T) {
 				if !match {
 					ev.Group = &manifest.Group{Name: "other"}
 				}
+				evOrder := r.order
+				// only siblings that were already issued: an order issued later could otherwise be
+				// reserved while this event is still queued in the service, which would make the
+				// outcome depend on the Go scheduler
+				sibling := (int(r.order.DSeq)-1)*2 + int(r.order.OSeq-1) ^ 1
+				if sibling < nextOrder && rapid.IntRange(0, 3).Draw(t, "staleOseq") == 0 {
+					// a late event of the sibling order (same deployment group, other order sequence)
+					evOrder.OSeq = 3 - evOrder.OSeq
+					ev.LeaseID.OSeq = evOrder.OSeq
+				}
 				// only the first reservation with this order+group is affected
 				var target *c12Res
 				for _, x := range model {
-					if x.order.Equals(r.order) && x.group == ev.Group.Name {
+					if x.order.Equals(evOrder) && x.group == ev.Group.Name {
 						target = x
 						break
 					}
@@ -532,7 +546,7 @@ func TestVerif_C12(t *testing.T) {
 				if err := B.bus.Publish(ev); err != nil {
 					t.Fatalf("publish: %v", err)
 				}
-				logop("event(order%d,group=%s,%s)", r.order.DSeq, ev.Group.Name, ev.Status)
+				logop("event(order%d/%d,group=%s,%s)", evOrder.DSeq, evOrder.OSeq, ev.Group.Name, ev.Status)
 				if target != nil {
 					// the event stops reservations and triggers an inventory refresh: wait for it
 					if !A.client.waitCalls(ca+1) || !B.client.waitCalls(cb+1) {
